@@ -22,6 +22,36 @@ pub const A: &[&str] = &[
 /// multi-byte non-prose filler
 pub const B: &[&str] = &["zählen", "値段", "😀", "ñandú", "Ωmega", "données", "ключ", "日本語", "τιμή", "qzxvb", "wrtgh", "naïvé", "🦀🦀", "ß"];
 /// ASCII identifiers for code
+/// every occurrence of an A-word as a whole ASCII-alphanumeric run inside a non-prose segment: if such a word is
+/// offered at all (known findings, by-design exceptions), it must be offered at exactly this span
+pub fn vocab_in_nonprose(text: &str, forbidden: &[(usize, usize, String)]) -> Vec<(usize, String)> {
+    let cs: Vec<char> = text.chars().collect();
+    let mut out = vec![];
+    for (s, e, _) in forbidden {
+        let (s, e) = (*s, (*e).min(cs.len()));
+        let mut i = s;
+        while i < e {
+            if cs[i].is_ascii_alphanumeric() || cs[i] == '_' {
+                let mut j = i;
+                while j < cs.len() && (cs[j].is_ascii_alphanumeric() || cs[j] == '_') {
+                    j += 1;
+                }
+                let run: String = cs[i..j].iter().collect();
+                let clean_left = i == 0 || (cs[i - 1].is_ascii() && cs[i - 1] != '\'');
+                let clean_right = j == cs.len() || (cs[j].is_ascii() && cs[j] != '\'');
+                // (an escape letter glued to the word, as in "\nriver", makes the run "nriver": not a vocabulary run)
+                if A.contains(&run.as_str()) && clean_left && clean_right && j <= e {
+                    out.push((i, run));
+                }
+                i = j;
+            } else {
+                i += 1;
+            }
+        }
+    }
+    out
+}
+
 pub const IDS: &[&str] = &["qzxvb", "wrtgh", "zzkpl", "xq_1", "vbnmq", "kjhgf"];
 
 struct Bld {
@@ -160,7 +190,8 @@ fn comment_file(fe: &str, id: &str, r: &mut Rng) -> Built {
     let l = lang(id);
     let mut b = Bld::new(r.chance(1, 4));
     if id == "shellscript" && r.chance(1, 3) {
-        b.non("#!/bin/sh teh", "ignored_comment");
+        // non-ASCII interpreter paths: the length of the shebang line in chars differs from its length in bytes
+        b.non(r.s(&["#!/bin/sh teh", "#!/home/zoë/bin/sh teh", "#!/usr/bin/env ключ -x", "#!/opt/値段/sh"]), "ignored_comment");
         b.newline();
         if r.chance(1, 4) {
             // the comment block merged with the shebang carries an ignore marker: the shebang hides its own line,
@@ -680,7 +711,30 @@ fn typst_file(fe: &str, r: &mut Rng) -> Built {
                 b.non(&format!("// {} {}", r.s(B), r.s(A)), "typst_comment");
             }
             7 => {
-                b.non(&format!("#let {} = \"{} {}\"", r.s(IDS), r.s(B), r.s(A)), "string_literal");
+                // a string literal in code; half of them with backslash escapes followed by vocabulary words (the
+                // escape is shorter in the resolved string than in the file: offsets must be those of the file)
+                let mut lit = String::new();
+                let escapes = r.chance(1, 2);
+                for i in 0..r.range(2, 6) {
+                    if i > 0 {
+                        lit.push(' ');
+                    }
+                    if escapes && r.chance(1, 3) {
+                        lit.push_str(r.s(&["\\n", "\\t", "\\\"", "\\\\", "\\u{2014}", "\\u{ab}"]));
+                        if r.chance(1, 2) {
+                            // directly followed by a word, as in "\"river\""
+                            lit.push_str(r.s(A));
+                            lit.push_str(r.s(&["", "\\\""]));
+                        }
+                    } else if r.chance(1, 2) {
+                        lit.push_str(r.s(A));
+                    } else {
+                        lit.push_str(r.s(B));
+                    }
+                }
+                let head = r.s(&["#let {} = ", "#figure(caption: ", "#text("]).replace("{}", r.s(IDS));
+                let tail = if head.starts_with("#let") { "" } else { ")" };
+                b.non(&format!("{head}\"{lit}\"{tail}"), "string_literal");
             }
             8 => {
                 b.non(&format!("#link(\"https://example.com/{}\")", r.s(IDS)), "url");
